@@ -162,7 +162,7 @@ package gtfs
 //@   loop 1 step [unknown-agency-rejects] col(csv, "agency_id") != "" && (forall k int :: 0 <= k && k < len(agencies) ==> agencies[k].Id != col(csv, "agency_id")) ==> len(routes) == athead(1, len(routes))
 //@   loop 1 step [only-agency-is-the-default] col(csv, "agency_id") == "" && len(agencies) == 1 && col(csv, "route_id") != "" && col(csv, "route_type") != "" ==> len(routes) == athead(1, len(routes)) + 1
 //@   loop 1 step [named-agency-accepts] forall k int :: 0 <= k && k < len(agencies) && agencies[k].Id == col(csv, "agency_id") && col(csv, "agency_id") != "" && col(csv, "route_id") != "" && col(csv, "route_type") != "" ==> len(routes) == athead(1, len(routes)) + 1
-//@   loop 1 step [earlier-routes-kept] forall k int :: 0 <= k && k < athead(1, len(routes)) ==> routes[k] == athead(1, routes[k])
+//@   loop 1 step [earlier-routes-kept] forall k int :: 0 <= k && k < athead(1, len(routes)) ==> routes[k] == athead(1, routes[k]) && (routes[k].SortOrder != nil ==> *routes[k].SortOrder == athead(1, *routes[k].SortOrder))
 //@   loop 1 decreases remaining(csv.csvReader)
 //@   loop 2 invariant agency == nil && (forall k int :: 0 <= k && k < $i ==> agencies[k].Id != agencyID)
 
@@ -232,7 +232,7 @@ package gtfs
 //@   loop 1 step [appended-iff-no-missing-key] (len(stops) == athead(1, len(stops)) + 1) == (len(csv.currentRow.missingKeys) == 0) && (len(stops) == athead(1, len(stops))) == (len(csv.currentRow.missingKeys) > 0)
 //@   loop 1 step [row-with-an-id-is-appended] col(csv, "stop_id") != "" ==> stopAppended(stops, athead(1, len(stops)), parentStopIds, csv) && has(stopIdToIndex, col(csv, "stop_id")) && stopIdToIndex[col(csv, "stop_id")] == len(stops) - 1
 //@   loop 1 step [row-without-an-id-is-inert] col(csv, "stop_id") == "" ==> len(stops) == athead(1, len(stops))
-//@   loop 1 step [earlier-stops-kept] forall k int :: 0 <= k && k < athead(1, len(stops)) ==> stops[k] == athead(1, stops[k])
+//@   loop 1 step [earlier-stops-kept] forall k int :: 0 <= k && k < athead(1, len(stops)) ==> stops[k] == athead(1, stops[k]) && (stops[k].Longitude != nil ==> *stops[k].Longitude == athead(1, *stops[k].Longitude)) && (stops[k].Latitude != nil ==> *stops[k].Latitude == athead(1, *stops[k].Latitude))
 //@   loop 1 step [earlier-parent-ids-kept] forall k int :: 0 <= k && k < athead(1, len(stops)) ==> parentStopIds[k] == athead(1, parentStopIds[k])
 //@   loop 1 decreases remaining(csv.csvReader)
 //@   loop 2 invariant len(parentStopIds) == len(stops) && fresh(stops) && fresh(parentStopIds)
@@ -266,7 +266,7 @@ package gtfs
 //@   loop 2 step [blank-required-cell-iff-a-missing-key-is-recorded] (col(csv, "from_stop_id") == "" || col(csv, "to_stop_id") == "") == (len(csv.currentRow.missingKeys) > 0)
 //@   loop 2 step [accepted-row-is-appended] trAccepted(csv, stopIdToStop) ==> trAppended(transfers, athead(2, len(transfers)), csv, stopIdToStop)
 //@   loop 2 step [rejected-row-is-inert] !trAccepted(csv, stopIdToStop) ==> len(transfers) == athead(2, len(transfers))
-//@   loop 2 step [earlier-transfers-kept] forall k int :: 0 <= k && k < athead(2, len(transfers)) ==> transfers[k] == athead(2, transfers[k])
+//@   loop 2 step [earlier-transfers-kept] forall k int :: 0 <= k && k < athead(2, len(transfers)) ==> transfers[k] == athead(2, transfers[k]) && (transfers[k].MinTransferTime != nil ==> *transfers[k].MinTransferTime == athead(2, *transfers[k].MinTransferTime))
 //@   loop 2 decreases remaining(csv.csvReader)
 
 // a calendar row is accepted iff both dates parse and no required cell was found blank. The seven weekday columns are
@@ -405,7 +405,7 @@ package gtfs
 //@   loop 3 step [rejected-unless-its-trip-is-at-hand] stRowAccepted(csv, idToStop, idToTrip) ==> currentTrip != nil && currentTrip == idToTrip[col(csv, "trip_id")]
 //@   loop 3 step [accepted-row-is-appended-to-its-trip] stRowAccepted(csv, idToStop, idToTrip) ==> stAppended(idToTrip[col(csv, "trip_id")], csv, idToStop)
 //@   loop 3 step [no-other-trip-grows] forall j int :: 0 <= j && j < len(trips) && !(stRowAccepted(csv, idToStop, idToTrip) && &trips[j] == idToTrip[col(csv, "trip_id")]) ==> len(trips[j].StopTimes) == athead(3, len(trips[j].StopTimes))
-//@   loop 3 step [stop-times-already-stored-are-kept] forall j int, k int :: 0 <= j && j < len(trips) && 0 <= k && k < athead(3, len(trips[j].StopTimes)) ==> trips[j].StopTimes[k] == athead(3, trips[j].StopTimes[k])
+//@   loop 3 step [stop-times-already-stored-are-kept] forall j int, k int :: 0 <= j && j < len(trips) && 0 <= k && k < athead(3, len(trips[j].StopTimes)) ==> trips[j].StopTimes[k] == athead(3, trips[j].StopTimes[k]) && (trips[j].StopTimes[k].ShapeDistanceTraveled != nil ==> *trips[j].StopTimes[k].ShapeDistanceTraveled == athead(3, *trips[j].StopTimes[k].ShapeDistanceTraveled))
 //@   loop 3 decreases remaining(csv.csvReader)
 //@   loop 4 invariant idToTrip != nil && (forall id string :: has(idToTrip, id) ==> tripIn(idToTrip[id], trips, id))
 //@   loop 4 invariant [own-storage] ownStorage(trips)
@@ -438,7 +438,7 @@ package gtfs
 // (C09); it is appended to the rows of its shape with exactly the numbers written (C01)
 //@ pure func shAccepted(f *csv.File) bool = col(f, "shape_id") != "" && col(f, "shape_pt_lat") != "" && col(f, "shape_pt_lon") != "" && col(f, "shape_pt_sequence") != "" && floatOK(trimSpace(col(f, "shape_pt_lat"))) && floatOK(trimSpace(col(f, "shape_pt_lon"))) && int32OK(col(f, "shape_pt_sequence"))
 //@ pure func shRowFaithful(r ShapeRow, f *csv.File) bool = r.ShapePtLat == floatVal(trimSpace(col(f, "shape_pt_lat"))) && r.ShapePtLon == floatVal(trimSpace(col(f, "shape_pt_lon"))) && r.ShapePtSequence == int32Val(col(f, "shape_pt_sequence")) && floatCell(r.ShapeDistTraveled, col(f, "shape_dist_traveled"))
-//@ pure func shPrefixKept(m ?, id string) bool = forall j int :: 0 <= j && j < athead(1, has(m, id) ? len(m[id]) : 0) ==> m[id][j] == athead(1, m[id][j])
+//@ pure func shPrefixKept(m ?, id string) bool = forall j int :: 0 <= j && j < athead(1, has(m, id) ? len(m[id]) : 0) ==> m[id][j] == athead(1, m[id][j]) && (m[id][j].ShapeDistTraveled != nil ==> *m[id][j].ShapeDistTraveled == athead(1, *m[id][j].ShapeDistTraveled))
 //@ pure func shAppended(m ?, id string, f *csv.File) bool = has(m, id) && len(m[id]) == athead(1, has(m, id) ? len(m[id]) : 0) + 1 && shRowFaithful(m[id][len(m[id]) - 1], f)
 //@ func parseShapes
 //@   props C01 C05 C08 C09
